@@ -153,6 +153,7 @@ func runDynamic(id string, args []string) {
 	tier := parseTier(args)
 	rc := newRunCtx(id, tier)
 	rc.Level = "model_checking"
+	rc.GroupByPre = true
 	prop := dynProps[id]
 	env := pipe.Setup()
 	corpus := env.BuildCorpus(tier)
